@@ -88,6 +88,12 @@ func (m *StringifiedMessage) UnmarshalNBT(tagType byte, r DecoderReader) error {
 }
 
 func (m *StringifiedMessage) encode(d *Decoder, sb *strings.Builder, tagType byte) error {
+	if tagType == TagList || tagType == TagCompound {
+		if err := d.enter(); err != nil {
+			return err
+		}
+		defer d.leave()
+	}
 	switch tagType {
 	default:
 		return fmt.Errorf("unknown to read 0x%02x", tagType)
